@@ -127,7 +127,7 @@ Proof.
   intros HP HG HS HR. unfold go_step in HS. rewrite HP in HS.
   destruct (generate_moves zt (ss_board st) AllMoves) as [|m0 ms] eqn:G; [contradiction|].
   destruct (get_best_move zt osort (sc_k sc) (sc_fuel sc) (ss_board st) (ss_table st)) as [[ev s]| |] eqn:GB.
-  - destruct (nth_error (sends_of ev) (Nat.min (sc_pick sc) (length (sends_of ev) - 1))) as [b|] eqn:NE.
+  - destruct (nth_error (sends_of ev) (length (sends_of ev) - 1)) as [b|] eqn:NE.
     + destruct (best_move_text b) as [t| |] eqn:BT; inversion HS; subst; cbn [ss_phase] in HR; try discriminate.
       left. exists ev, s, b, t. repeat split; auto. eapply nth_error_In; eauto.
     + inversion HS; subst. right. split; auto. exists ev, s. repeat split; auto.
